@@ -428,6 +428,18 @@ class While:
         return '%swhile %s {\n%s%s}' % (ind, self.cond.src(), block_src(self.body, ind + '    '), ind)
 
 
+class ForRange:
+    """for v in lo..hi { body }   (lo..=hi with inclusive=True): the bounds are evaluated ONCE, before the first
+    iteration; v takes lo, lo+1, ... while v < hi (<= hi); assignments to the bound variables inside the body do not
+    change the number of iterations.  (No `continue` in the body: the reference steps v at the end of the body.)"""
+
+    def __init__(self, v, ty, lo, hi, body, inclusive=False):
+        self.v, self.ty, self.lo, self.hi, self.body, self.inclusive = v, ty, lo, hi, body, inclusive
+
+    def src(self, ind):
+        return '%sfor %s in %s%s%s {\n%s%s}' % (ind, self.v, self.lo.src(), '..=' if self.inclusive else '..', self.hi.src(), block_src(self.body, ind + '    '), ind)
+
+
 class ForIn:
     """for i, v in arr { body }  (i: i32 index, v: element)"""
 
@@ -753,6 +765,13 @@ class RefEval:
                     break
                 self.block(s.body, env, ctx, gg)
             ctx['loops'].pop()
+        elif isinstance(s, ForRange):
+            self._rng = getattr(self, '_rng', 0) + 1
+            lo_n, hi_n = '__rlo%d' % self._rng, '__rhi%d' % self._rng
+            v = Var(s.v, s.ty)
+            desugared = [Let(lo_n, s.ty, s.lo), Let(hi_n, s.ty, s.hi), Let(s.v, s.ty, Var(lo_n, s.ty)),
+                         While(Cmp('<=' if s.inclusive else '<', v, Var(hi_n, s.ty)), list(s.body) + [Assign(v, Bin('+', v, Lit(1, s.ty)))])]
+            self.block(desugared, env, ctx, g)
         elif isinstance(s, ForIn):
             arr = self.eval(s.arr, env, ctx, lv)
             elems = arr.elems if isinstance(arr, DynArr) else arr
